@@ -373,7 +373,16 @@ func (z *ZodString[T]) Overwrite(fn func(T) T, params ...any) *ZodString[T] {
 		if !ok {
 			return input
 		}
-		return fn(converted)
+		out := fn(converted)
+		// Checks validate the plain string: when the payload held a string,
+		// hand a string on to the checks attached after this overwrite, even
+		// if the schema's own type is *string.
+		if _, isString := input.(string); isString {
+			if p, isPtr := any(out).(*string); isPtr && p != nil {
+				return *p
+			}
+		}
+		return out
 	}
 	return z.withCheck(checks.NewZodCheckOverwrite(wrapped, params...))
 }
